@@ -389,11 +389,58 @@ def p4(run):
     run.ok("C06.P4", "float-threshold census: %d comparisons against non-zero constants on the conversion path, all reviewed" % n, None)
 
 
-FIXTURE_EXPECT = ["float-threshold/"]
+FIXTURE_EXPECT = ["float-threshold/", "column-depends-on-position/"]
 
 
 def fixture(run):
     p4(run)
+    p5(run)
+
+
+_run0 = run
+
+
+def run(run):
+    _run0(run)
+    p5(run)
 
 
 run_flow = run
+
+
+def p5(run):
+    """P5 [N]: the column a character lands in is its index in the expanded row, and the expansion of a character depends on
+    the character alone (C04.F4).  For translation that needs one more thing: nothing in `StringBuffer::from` looks at how
+    long the row already is (`row.len()`, a column counter taken modulo something): a tab stop or an alignment rule would
+    make the columns after it depend on the absolute column, i.e. on where the drawing sits."""
+    prog = run.prog
+    sb = prog.method("from", r"string_buffer::StringBuffer$", r"From<&str>")
+    if not sb:
+        run.missing("C06.P5", "From<&str> for StringBuffer")
+        return
+    region = module_region(prog, sb)
+    # functions handed to iterator adaptors by name (`flat_map(padded_char)`)
+    for q in list(region):
+        qex = Expr(prog, q)
+        for _, t in prog.calls(q):
+            for a in t["args"]:
+                v = strip(qex.operand(a))
+                if v[0] == "fn" and v[1] in prog.bodies and prog.bodies[v[1]].get("crate") == "svgbob":
+                    region = sorted(set(region) | set(module_region(prog, v[1])))
+    bad = 0
+    for q in region:
+        b = prog.bodies[q]
+        for bid, t in prog.calls(q):
+            n = Program.callee_name(t)
+            if re.search(r"Vec::<T, A>::len$|<impl \[T\]>::len$|Vec::<T, A>::capacity$", n):
+                bad += 1
+                run.bad("C06.P5", "column-depends-on-position/%s" % short(q), where(t),
+                        "%s reads the length of the row built so far (%s): the columns given to the following characters depend on the absolute column, so a drawing moved by k columns is not just shifted by k" % (short(q), short(n)))
+        for blk in b["blocks"]:
+            for st in blk["stmts"]:
+                rv = st.get("rv") or {}
+                if rv.get("k") in ("bin", "checked_bin") and str(rv.get("op", "")).startswith("Rem"):
+                    bad += 1
+                    run.bad("C06.P5", "column-depends-on-position/%s" % short(q), where(st), "%s computes a remainder while laying out a row (tab stops / alignment): columns depend on the absolute position" % short(q))
+    if not bad:
+        run.ok("C06.P5", "the row layout (%d function(s)) never looks at the length of the row built so far" % len(region), where(prog.bodies[sb]))
